@@ -89,7 +89,7 @@ var anchorNames = []string{"t", "t", "u", "A1", "x-y", "_x", "_", "a.b", "x_y", 
 
 // d7AnchorNames: draft-07 plain names may also contain ':' and '.' ([A-Za-z][-A-Za-z0-9_:.]*); 2020-12 $anchor may not hold ':'.
 var d7AnchorNames = []string{"t", "u", "A1", "x-y", "net:port", "a.b", "x_y", "n:", "v1.2-rc_3:x"}
-var odd = []string{"a/b", "~", "a b", "%25", "é", "0", "-", "", "a+b", "c++", "a&b=c", "x;y", "q?r"}
+var odd = []string{"a/b", "~", "a b", "%25", "é", "0", "-", "", "a+b", "c++", "a&b=c", "x;y", "q?r", "\ufffd", "x\ufffd", "\U0001F600"}
 
 // NewUniverse generates a topology for C03.
 func NewUniverse(r *rand.Rand, d7 bool) *Universe {
